@@ -1,6 +1,7 @@
 import DryocVerif.Model.TypeState
 import DryocVerif.Model.Protected
 import DryocVerif.Proofs.TypeStateBridge
+import DryocVerif.Proofs.TypeStateTable
 /-
 C20 — safe code cannot request an access the current state forbids.
 
@@ -8,9 +9,12 @@ Three layers, kept apart on purpose:
  1. THE TABLE (`Model/TypeState.lean`: `permits pm lm cont op` = "the safe API has this method on
     `Protected<cont, pm, lm>`").  That rustc accepts exactly this table is MEASURED exhaustively on
     every run (one misuse and one control program per cell); it is not a theorem.
+    The table has one row per trait impl of protected.rs / bytes_serde.rs whose receiver is a
+    `Protected` (`implTable`, `table_covers_impls`).
  2. TABLE-LEVEL THEOREMS (`permits_sound` … `well_typed_no_fault`): every operation the table offers
-    performs only accesses that the protect-mode MARKER of the state allows (`allowed`).  These say
-    nothing about pages.
+    performs only accesses that the protect-mode MARKER of the state allows (`allowed`) — EXCEPT
+    the row `zeroize` (`zeroize_not_sound`), which is why `permits_sound`, `well_typed_no_fault`
+    and `permitted_access_no_segv` exclude it by hypothesis.  These say nothing about pages.
  3. THE BRIDGE to the kernel model of C14 (`permitted_read_no_segv` … `well_typed_no_segv`): in every
     state satisfying the invariant of C14 (hence every reachable one), a region whose type state is
     `(pm, lm)` really has the page rights the marker stands for, so an access FAULTS (`segv` in the
@@ -23,12 +27,116 @@ open DryocVerif.Model.TypeState
 
 /-! ### table level -/
 
-/-- (table level) every operation the API offers in a state performs only accesses that the
-state's protect-mode marker allows.  This is a statement about the two tables `permits` and
-`allowed`; that the marker agrees with the real page rights is `marker_is_page_right` below. -/
-theorem permits_sound (pm : PM) (lm : LM) (c : Cont) (op : Op) (h : permits pm lm c op = true) :
-    allowed pm (access op) = true := by
-  cases op <;> cases pm <;> cases lm <;> cases c <;> simp_all [permits, allowed, access]
+/-- (table level) every operation the API offers in a state — other than `zeroize` — performs only
+accesses that the state's protect-mode marker allows.  This is a statement about the two tables
+`permits` and `allowed`; that the marker agrees with the real page rights is `marker_is_page_right`
+below.
+STATEMENT CHANGED with the enlarged table (rows `asRef`, `asMut`, `indexMut`, `copyFrom`,
+`mutArrayView`, `cloneFrom`, `serialize`, `zeroize` added): the hypothesis `hz : op ≠ .zeroize` is
+new.  Without it the statement is FALSE (`zeroize_not_sound`): `impl Zeroize for Protected<A, PM, LM>`
+exists for every `PM`, `LM` and writes.  Over the original twelve rows the statement is the old one. -/
+theorem permits_sound (pm : PM) (lm : LM) (c : Cont) (op : Op) (hz : op ≠ .zeroize)
+    (h : permits pm lm c op = true) : allowed pm (access op) = true :=
+  Proofs.TypeStateTable.permits_sound pm lm c op hz h
+
+/-- the hypotheses of `permits_sound` are satisfiable, for an old and for a new row -/
+example : Op.copyFrom ≠ .zeroize ∧ permits .rw .locked .array .copyFrom = true ∧
+    Op.readView ≠ .zeroize ∧ permits .ro .unlocked .bytes .readView = true := by decide
+
+/-- **the documented observation, as a table fact**: the row `zeroize` is offered where the marker
+forbids the write it performs.  `Zeroize::zeroize(&mut self)` is the body of `Drop for Protected`
+(it makes the pages read-write, zeroes them, unlocks them) and is exposed as a public safe method
+through the `Zeroize` trait, for EVERY `PM`, `LM`: so on a `ReadOnly` / `NoAccess` handle the code
+OFFERS a write.  (What that does to the pages: `zeroize_breaks_marker` below.) -/
+theorem zeroize_not_sound :
+    ∃ (pm : PM) (lm : LM) (c : Cont),
+      permits pm lm c .zeroize = true ∧ ¬ allowed pm (access .zeroize) = true := by
+  obtain ⟨pm, lm, c, h1, h2⟩ := Proofs.TypeStateTable.zeroize_not_sound
+  exact ⟨pm, lm, c, h1, by simp [h2]⟩
+
+/-- `zeroize` is offered in all 12 cells, and is unsound exactly in the 8 with `pm ≠ ReadWrite` -/
+theorem zeroize_unsound_iff (pm : PM) (lm : LM) (c : Cont) :
+    (permits pm lm c .zeroize = true ∧ allowed pm (access .zeroize) = false) ↔ pm ≠ .rw :=
+  Proofs.TypeStateTable.zeroize_unsound_iff pm lm c
+
+/-- … and it is the ONLY unsound row -/
+theorem unsound_only_zeroize (pm : PM) (lm : LM) (c : Cont) (op : Op)
+    (h : permits pm lm c op = true) (hf : allowed pm (access op) = false) : op = .zeroize :=
+  Proofs.TypeStateTable.unsound_only_zeroize pm lm c op h hf
+
+example : permits .na .unlocked .array .zeroize = true ∧ allowed .na (access .zeroize) = false := by decide
+
+/-- every offered writing row other than `zeroize` needs `ReadWrite`; every offered reading row
+needs `ReadOnly` or `ReadWrite` -/
+theorem write_offered_only_rw (pm : PM) (lm : LM) (c : Cont) (op : Op) (hz : op ≠ .zeroize)
+    (ha : access op = .write) (h : permits pm lm c op = true) : pm = .rw :=
+  Proofs.TypeStateTable.write_offered_only_rw pm lm c op hz ha h
+
+theorem read_offered_not_na (pm : PM) (lm : LM) (c : Cont) (op : Op)
+    (ha : access op = .read) (h : permits pm lm c op = true) : pm ≠ .na :=
+  Proofs.TypeStateTable.read_offered_not_na pm lm c op ha h
+
+example : Op.mutArrayView ≠ .zeroize ∧ access .mutArrayView = .write ∧
+    permits .rw .unlocked .array .mutArrayView = true ∧
+    access .serialize = .read ∧ permits .ro .locked .bytes .serialize = true := by decide
+
+/-- completeness of the container-independent view rows: they are offered whenever the marker
+allows the access -/
+theorem views_complete (pm : PM) (lm : LM) (c : Cont) :
+    (allowed pm .read = true →
+      permits pm lm c .readView = true ∧ permits pm lm c .index = true ∧ permits pm lm c .asRef = true) ∧
+    (allowed pm .write = true →
+      permits pm lm c .mutView = true ∧ permits pm lm c .indexMut = true ∧
+      permits pm lm c .asMut = true ∧ permits pm lm c .copyFrom = true) :=
+  Proofs.TypeStateTable.views_complete pm lm c
+
+/-- `Serialize` (bytes_serde.rs) exists in exactly three cells: `Locked<HeapByteArray<N>>`,
+`LockedBytes = Locked<HeapBytes>`, `LockedRO<HeapBytes>` -/
+theorem serialize_cells (pm : PM) (lm : LM) (c : Cont) :
+    permits pm lm c .serialize = true ↔
+      (c, pm, lm) ∈ [(Cont.array, PM.rw, LM.locked), (.bytes, .rw, .locked), (.bytes, .ro, .locked)] :=
+  Proofs.TypeStateTable.serialize_cells pm lm c
+
+theorem mut_array_view_iff (pm : PM) (lm : LM) (c : Cont) :
+    permits pm lm c .mutArrayView = true ↔ c = .array ∧ pm = .rw :=
+  Proofs.TypeStateTable.mut_array_view_iff pm lm c
+
+theorem clone_from_eq_clone (pm : PM) (lm : LM) (c : Cont) :
+    permits pm lm c .cloneFrom = permits pm lm c .clone := rfl
+
+/-- **documentation by proof**: `implTable` (`Model/TypeState.lean`) lists every trait impl of
+protected.rs / bytes_serde.rs whose receiver is a `Protected<A, PM, LM>`, each with its row; every
+row of the table occurs in that list.
+Bytes-reaching code WITHOUT a row (none of it operates on an existing handle in a type state, or it
+does not touch the region's bytes):
+ * constructors — `NewLocked::{new_locked, new_readonly_locked, gen_locked, gen_readonly_locked}`,
+   `NewLockedFromSlice::{from_slice_into_locked, from_slice_into_readonly_locked}` (both impls),
+   `Lockable::mlock` for `HeapBytes` / `HeapByteArray<N>`, `StackByteArray::{mlock,
+   mprotect_readonly}`, `Default for Locked<A>`, `NewBytes for Locked<HeapBytes>` /
+   `Locked<HeapByteArray<N>>`, `NewByteArray<N> for Locked<HeapByteArray<N>>` (`gen` writes through
+   `as_mut_slice`), `Deserialize for LockedBytes` / `Locked<HeapByteArray<N>>` (the latter writes
+   `arr[idx] = elem` through `DerefMut` on a fresh `Locked` region = row `indexMut` in cell
+   `(array, rw, locked)`): they CREATE a region in state `(rw, locked)` (then possibly `ro`) and
+   write it while it is `ReadWrite`;
+ * `Bytes::len` / `Bytes::is_empty` on `Protected<A, ReadOnly | ReadWrite, LM>`: read the length
+   field of the inner `Vec`, not the region (same cells as `readView`);
+ * there is NO `AsRef<[u8; N]>` and NO `Index`/`IndexMut` impl for `Protected` itself (only for the
+   bare containers); indexing goes through `Deref` / `DerefMut` = rows `index` / `indexMut`. -/
+theorem table_covers_impls :
+    (∀ op : Op, (implTable.any fun p => p.2 == op) = true) ∧
+    implTable.length = 36 ∧ Proofs.TypeStateTable.allOps.length = 20 ∧
+    (∀ op : Op, op ∈ Proofs.TypeStateTable.allOps) :=
+  ⟨Proofs.TypeStateTable.table_covers_impls, Proofs.TypeStateTable.table_covers_impls_counts.1,
+   Proofs.TypeStateTable.table_covers_impls_counts.2.1, Proofs.TypeStateTable.allOps_complete⟩
+
+/-- the whole table by evaluation: in how many of the 12 cells each of the 20 rows (order of
+`allOps`) is offered -/
+theorem cell_counts :
+    let cells : List (PM × LM × Cont) :=
+      [.rw, .ro, .na].flatMap fun pm => [LM.locked, .unlocked].flatMap fun lm => [Cont.bytes, .array].map fun c => (pm, lm, c)
+    Proofs.TypeStateTable.allOps.map (fun op => (cells.filter fun x => permits x.1 x.2.1 x.2.2 op).length) =
+      [8, 4, 4, 8, 2, 6, 6, 12, 12, 12, 6, 0, 8, 4, 4, 4, 2, 6, 3, 12] :=
+  Proofs.TypeStateTable.cell_counts
 
 theorem mut_view_only_rw (pm : PM) (lm : LM) (c : Cont) : permits pm lm c .mutView = true → pm = .rw := by
   cases pm <;> simp [permits]
@@ -60,20 +168,33 @@ def noFault : PM → LM → List Op → Bool
   | _, _, [] => true
   | pm, lm, op :: rest => allowed pm (access op) && noFault (next pm lm op).1 (next pm lm op).2 rest
 
-/-- (table level) a well-typed program of any length never performs an access its current marker
-forbids -/
-theorem well_typed_no_fault (c : Cont) (pm : PM) (lm : LM) (prog : List Op) :
+/-- (table level) a well-typed program of any length that does not call `zeroize` never performs an
+access its current marker forbids.
+STATEMENT CHANGED with the enlarged table: hypothesis `hz : .zeroize ∉ prog` is new (the row
+`zeroize` is offered everywhere and writes; with it the statement is false, see the example below).
+Over programs of the original twelve rows the statement is the old one. -/
+theorem well_typed_no_fault (c : Cont) (pm : PM) (lm : LM) (prog : List Op) (hz : Op.zeroize ∉ prog) :
     wellTyped c pm lm prog = true → noFault pm lm prog = true := by
   induction prog generalizing pm lm with
   | nil => simp [noFault]
   | cons op rest ih =>
     simp only [wellTyped, noFault, Bool.and_eq_true]
     intro ⟨h1, h2⟩
-    exact ⟨permits_sound pm lm c op h1, ih _ _ h2⟩
+    simp only [List.mem_cons, not_or] at hz
+    exact ⟨permits_sound pm lm c op (fun h => hz.1 h.symm) h1, ih _ _ hz.2 h2⟩
+
+/-- the hypothesis is satisfiable, and necessary: `[zeroize]` is well typed on a read-only handle
+and is a fault of the table semantics -/
+example : Op.zeroize ∉ [Op.mutView, .ro, .readView, .unlock, .na, .rw, .resize] := by decide
+example : wellTyped .bytes .ro .locked [.zeroize] = true ∧ noFault .ro .locked [.zeroize] = false := by decide
 
 /-- non-vacuity: a non-trivial well-typed program and an ill-typed one -/
 example : wellTyped .bytes .rw .locked [.mutView, .ro, .readView, .unlock, .na, .rw, .resize] = true := by decide
 example : wellTyped .bytes .rw .locked [.ro, .mutView] = false := by decide
+example : wellTyped .array .rw .locked
+    [.asMut, .indexMut, .copyFrom, .mutArrayView, .serialize, .ro, .asRef, .arrayView, .unlock, .cloneFrom] = true ∧
+    wellTyped .array .rw .locked [.ro, .serialize] = false ∧ wellTyped .bytes .rw .locked [.ro, .serialize] = true ∧
+    wellTyped .array .rw .locked [.cloneFrom] = false ∧ wellTyped .bytes .rw .unlocked [.mutArrayView] = false := by decide
 
 /-- non-vacuity of `noFault`: it is not constantly `true` — reading a no-access region, or writing
 after `ro`, is a fault of the table semantics -/
@@ -112,7 +233,7 @@ theorem permitted_read_no_segv (c : Cfg) (hP : 0 < c.P) (s : State) (h : Inv c s
     (hi : s.slots[i]? = some sl) (hg : sl.gone = false) (pm : PM) (lm : LM) (ct : Cont)
     (hst : sl.o.st = .prot (convLM lm) (convPM pm)) (hperm : permits pm lm ct .readView = true)
     (off : Nat) (hoff : off < sl.o.v.len) : (opRProbe c s i off).1 = .ok :=
-  (rprobe_ok_iff hP h hi hg hst hoff).mpr (permits_sound pm lm ct .readView hperm)
+  (rprobe_ok_iff hP h hi hg hst hoff).mpr (permits_sound pm lm ct .readView (by decide) hperm)
 
 /-- if the API offers `as_mut_slice()` (`MutBytes`) in the state of a live region, writing any of its
 bytes does not fault -/
@@ -120,17 +241,22 @@ theorem permitted_write_no_segv (c : Cfg) (hP : 0 < c.P) (s : State) (h : Inv c 
     (hi : s.slots[i]? = some sl) (hg : sl.gone = false) (pm : PM) (lm : LM) (ct : Cont)
     (hst : sl.o.st = .prot (convLM lm) (convPM pm)) (hperm : permits pm lm ct .mutView = true)
     (off : Nat) (hoff : off < sl.o.v.len) : (opWProbe c s i off).1 = .ok :=
-  (wprobe_ok_iff hP h hi hg hst hoff).mpr (permits_sound pm lm ct .mutView hperm)
+  (wprobe_ok_iff hP h hi hg hst hoff).mpr (permits_sound pm lm ct .mutView (by decide) hperm)
 
-/-- the same for EVERY operation of the table, by the access it performs (`index`, `as_array`,
-`clone` read; `resize` writes) -/
+/-- the same for EVERY operation of the table other than `zeroize`, by the access it performs
+(`index`, `as_array`, `clone`, `as_ref`, `clone_from`, `serialize` read; `resize`, `as_mut`,
+`deref_mut`, `copy_from_slice`, `as_mut_array` write).
+STATEMENT CHANGED with the enlarged table: hypothesis `hz : op ≠ .zeroize` is new (for `zeroize` on
+a read-only region the conclusion "a plain write probe answers `ok`" is false — the method changes
+the page rights first; see `zeroize_breaks_marker`). -/
 theorem permitted_access_no_segv (c : Cfg) (hP : 0 < c.P) (s : State) (h : Inv c s) (i : Nat) (sl : Slot)
     (hi : s.slots[i]? = some sl) (hg : sl.gone = false) (pm : PM) (lm : LM) (ct : Cont)
-    (hst : sl.o.st = .prot (convLM lm) (convPM pm)) (op : Op) (hperm : permits pm lm ct op = true)
+    (hst : sl.o.st = .prot (convLM lm) (convPM pm)) (op : Op) (hz : op ≠ .zeroize)
+    (hperm : permits pm lm ct op = true)
     (off : Nat) (hoff : off < sl.o.v.len) :
     (access op = .read → (opRProbe c s i off).1 = .ok) ∧
     (access op = .write → (opWProbe c s i off).1 = .ok) := by
-  have hal := permits_sound pm lm ct op hperm
+  have hal := permits_sound pm lm ct op hz hperm
   refine ⟨fun ha => ?_, fun ha => ?_⟩
   · rw [ha] at hal; exact (rprobe_ok_iff hP h hi hg hst hoff).mpr hal
   · rw [ha] at hal; exact (wprobe_ok_iff hP h hi hg hst hoff).mpr hal
@@ -179,15 +305,17 @@ example :
 
 /-! the same in every reachable state (`step` resets the release log and runs the probe) -/
 
+/-- (hypothesis `hz : op ≠ .zeroize` new, as in `permitted_access_no_segv`) -/
 theorem permitted_access_no_segv_reachable (c : Cfg) (hP : 0 < c.P) (oracle : Nat → Bool) (toks : List Tok)
     (i : Nat) (sl : Slot) (hi : (runState c (State.init oracle) toks).slots[i]? = some sl)
     (hg : sl.gone = false) (pm : PM) (lm : LM) (ct : Cont)
-    (hst : sl.o.st = .prot (convLM lm) (convPM pm)) (op : Op) (hperm : permits pm lm ct op = true)
+    (hst : sl.o.st = .prot (convLM lm) (convPM pm)) (op : Op) (hz : op ≠ .zeroize)
+    (hperm : permits pm lm ct op = true)
     (off : Nat) (hoff : off < sl.o.v.len) :
     (access op = .read → (step c (runState c (State.init oracle) toks) ⟨.rprobe off, i⟩).1 = .ok) ∧
     (access op = .write → (step c (runState c (State.init oracle) toks) ⟨.wprobe off, i⟩).1 = .ok) :=
   permitted_access_no_segv c hP (resetRel (runState c (State.init oracle) toks))
-    (inv_runState hP toks (inv_init c oracle)) i sl hi hg pm lm ct hst op hperm off hoff
+    (inv_runState hP toks (inv_init c oracle)) i sl hi hg pm lm ct hst op hz hperm off hoff
 
 theorem forbidden_access_segv_reachable (c : Cfg) (hP : 0 < c.P) (oracle : Nat → Bool) (toks : List Tok)
     (i : Nat) (sl : Slot) (hi : (runState c (State.init oracle) toks).slots[i]? = some sl)
@@ -228,7 +356,12 @@ in which slot `i` is a live region in table state `(pm, lm)` with more than `off
 already consumed).  Run a well-typed program on it, each table operation replaced by its harness
 token (`tokOf`: the five transitions by the tokens of the same name — `lock` may be refused or fail,
 whatever the oracle says —, every other operation by the access it performs at byte `off`).  Then
-NO step answers `segv`. -/
+NO step answers `segv`.
+Statement unchanged over the enlarged table; what it says about the new rows: `asRef`, `cloneFrom`,
+`serialize` are read probes, `asMut`, `indexMut`, `copyFrom`, `mutArrayView` write probes; the row
+`zeroize` HAS NO TOKEN (`tokOf … .zeroize = none`, like `useAfter`), so a `zeroize` step is simply
+absent from the run and the theorem says NOTHING about what `Zeroize::zeroize` does to the pages —
+that is `zeroize_breaks_marker` below. -/
 theorem well_typed_no_segv (c : Cfg) (hP : 0 < c.P) (ct : Cont) (i off : Nat) (prog : List Op) :
     ∀ (s : State) (pm : PM) (lm : LM), SlotIn c s i off pm lm → wellTyped ct pm lm prog = true →
       ∀ r ∈ run c s (prog.filterMap (tokOf i off)), r.1 ≠ .segv := by
@@ -238,7 +371,13 @@ theorem well_typed_no_segv (c : Cfg) (hP : 0 < c.P) (ct : Cont) (i off : Nat) (p
     intro s pm lm hin hw r hr
     simp only [wellTyped, Bool.and_eq_true] at hw
     cases ht : tokOf i off op with
-    | none => cases op <;> simp [tokOf] at ht; simp [permits] at hw
+    | none =>
+      cases op <;> simp only [tokOf, reduceCtorEq] at ht
+      case useAfter => simp [permits] at hw
+      case zeroize =>
+        -- no token: the step is absent from the run; the table state does not change
+        simp only [List.filterMap_cons, tokOf] at hr
+        exact ih s pm lm hin hw.2 r hr
     | some t =>
       have hs := step_no_segv hP ct hin op hw.1 t ht
       simp only [List.filterMap_cons, ht, run, List.mem_cons] at hr
@@ -272,7 +411,7 @@ example :
     (run c s' ([Op.unlock, .lock, .readView].filterMap (tokOf 0 15))).map (·.1) = [.ok, .err, .na] := by
   decide
 
-/-! ### OUTSIDE the operation list: the safe method `Zeroize::zeroize(&mut self)`
+/-! ### the row `zeroize`: the safe method `Zeroize::zeroize(&mut self)`, on the kernel model
 
 `impl Zeroize for Protected<A, PM, LM>` (/repo/src/protected.rs, right after `Drop`, which calls
 it) is a SAFE, public method available in EVERY type state.  On a non-empty region it makes the
@@ -281,15 +420,16 @@ pages read-write (if the internal mode is not `ReadWrite`), zeroes the bytes, an
 without changing its type: a `Protected<_, ReadOnly, Locked>` is afterwards still typed
 `ReadOnly, Locked`, while its pages are writable and unlocked.
 
-`Model/TypeState.lean` has NO row for this method (its `Op` list is: the views, `index`, `resize`,
-`clone`, the five transitions, `useAfter`), the kernel model has no token for it (the harness token
+At the table level this is the row `zeroize` of `Model/TypeState.lean` (offered in all 12 cells,
+access = write), and `zeroize_not_sound` / `zeroize_unsound_iff` above say that it is the one row
+the marker does not justify.  The KERNEL model still has no token for it (the harness token
 `zeroize` is issued on plain / unlocked read-write slots only, where it coincides with `fill:00`),
-and so `marker_is_page_right`, `views_offered_iff_no_segv`, `well_typed_no_segv` do NOT cover
-programs that call it.  The counter-model below records this, so that nobody reads
-`well_typed_no_segv` as "no safe program can make marker and pages disagree".  What goes wrong after
-`zeroize` is not a crash — the pages only become MORE permissive — but the guarantee the marker
-advertises (read-only, locked in RAM) silently no longer holds.  It is an observation about the
-API, outside the property's operation list; it contradicts none of the theorems above. -/
+`tokOf` maps the row to no token, and so `marker_is_page_right`, `views_offered_iff_no_segv`,
+`well_typed_no_segv` do NOT cover the EFFECT of a program that calls it.  The counter-model below
+records this, so that nobody reads `well_typed_no_segv` as "no safe program can make marker and
+pages disagree".  What goes wrong after `zeroize` is not a crash — the pages only become MORE
+permissive — but the guarantee the marker advertises (read-only, locked in RAM) silently no longer
+holds.  It is an observation about the API; it contradicts none of the theorems above. -/
 
 open DryocVerif.Model.Protected (dryocMprotect dryocMunlock zeroizeV ptr lockedPages) in
 /-- the effect of `Zeroize::zeroize(&mut self)` on the live `Protected` region in slot `i`, on the
